@@ -136,7 +136,10 @@ PROPS["C17"]["env"] = {"VERIF_RUN_TIMEOUT_S": 10}
 
 # C17 supplementary phases: several requests answered concurrently (scheduler and -race binary)
 PROPS["C17"]["also"] = [{"engine": "jsonconc", "race": False, "runs_quick": 150, "runs_thorough": 20000},
-                        {"engine": "jsonconc", "race": True, "runs_quick": 100, "runs_thorough": 10000}]
+                        {"engine": "jsonconc", "race": True, "runs_quick": 100, "runs_thorough": 10000},
+                        {"engine": "owsingle", "race": False, "runs_quick": 60, "runs_thorough": 3000}]
+PROPS["C17"]["rule"] += "; a last phase starts the real ow-single program (cmd/ow-single) as an operating-system process with the request arriving through a pipe, from a regular file or (the empty request) from the null device: its standard output must be byte for byte what RunSingleModelJSON writes in-process, with exit status 0"
+PROPS["C17"]["real"] = PROPS["C17"]["real"] + ["cmd/ow-single (as a real process, owsingle phase)"]
 PROPS["C17"]["rule"] += "; a writer that fails in mid-answer is injected before some requests (its own answer is not asserted, the following ones are); supplementary phases answer 2-4 complete requests concurrently as tasks under the seeded scheduler and in the -race binary"
 
 # C06 through the tool chain: ow-sim run in two parts with -final-states / -initial-states files
